@@ -64,6 +64,9 @@ class TModel(ChanModel):
         k = op[0]
         if k == "dl":
             return self._op(w, op[2], op[1])
+        if k == "badw":
+            # the rejected write leaves nothing behind: same as the inner operation alone
+            return self._op(w, op[3], deadline)
         comps = []
         before = self.nextwid
         if k == "sleep":
